@@ -194,6 +194,25 @@ PROPS["C14"] = {
     "level_note": "Trusted: Lean kernel, translator (mailbox capacities), synctest. The composition with the transports (who is told what when only one direction is dead) is exercised by the system rig, not modelled.",
     "technique": "Lean 4 proof over timed loop models + virtual-time correspondence",
 }
+PROPS["C03"] = {
+    "lean": ["SioVerif.Props.C03"],
+    "components": ["timed:TestAcks"],
+    "facts": [],
+    "rule": "virtual time. Unit: the real ack handler with a timeout, one reply at delay {0, T-1ns, T, T+1ns, 2T, never} (with and without a duplicate call). System: real server and "
+            "client stacks on the in-memory network, 1..50 acks outstanding at once, reply delays on both sides of the timeout, 0..3 attachments, with and without timeout, "
+            "the replying handler calling its ack function once or twice, both directions, polling / websocket / upgrade, emitter cut off in mid-flight; the emitter not "
+            "connected (timeout while the packet with 0..3 attachments is buffered offline; connecting before / after the timeout / never); a protocol-level peer that "
+            "repeats, invents and garbles ACK frames. Non-trivial = every scenario; distinct by description.",
+    "trusted_base": EXT + ["go1.26.8 testing/synctest virtual clock", "the atomic steps of the model are the critical sections of handler.go (handler mutex) and of the sockets (ack map mutex)"],
+    "assumptions": ["when reply and timer are runnable at the same instant either order is accepted (both are orders of the model)"],
+    "level_text": "Lean 4 theorems over a transition system of one acknowledgement (ack map entry, called / timedOut flags, timer), for every interleaving of the timer with any "
+                  "number of reply frames (repeated or invented): the callback runs at most once; if it ran with a reply, that reply arrived for this id; with a timeout, once "
+                  "the timer has fired it has run exactly once; reply-before-timer yields the reply, timer-before-reply yields ErrAckTimeout; the replying side sends at most "
+                  "one ACK per event; the offline purge removes exactly the frames of the timed-out event. The real handler's and sockets' behaviour under a virtual clock is "
+                  "compared with the model and judged by the property's predicates.",
+    "level_note": "Trusted: Lean kernel, synctest, harness. The purge loop's original panic (D15) is repaired; its absence is exercised, the model's purge is the repaired filter.",
+    "technique": "Lean 4 proof (inductive invariant over all interleavings) + virtual-time scenario correspondence",
+}
 
 NOT_APPLICABLE = [
 ]
